@@ -1,4 +1,5 @@
 """Matching logical objects"""
+import operator as operator_module
 import warnings
 from abc import ABCMeta, abstractmethod
 from collections import namedtuple
@@ -418,8 +419,9 @@ class Condition(MatchCriteria):
         if left_value is None or right_value is None:
             raise ComparisonError(f"Error comparing {left_value} and {right_value}. Neither should be None.")
 
-        # x.__le__(y) style call
-        return getattr(left_value, operator)(right_value)
+        # operator.le(x, y) style call. Unlike x.__le__(y), this also handles operands of different numeric types
+        # (e.g. int vs float), for which the dunder method returns NotImplemented
+        return getattr(operator_module, operator.strip("_"))(left_value, right_value)
 
 
 class Anded(namedtuple('Anded', ['conditions', 'ors'])):
